@@ -67,6 +67,11 @@ func RenderSpaces(toks []RTok) string {
 	return strings.Join(parts, " ")
 }
 
+var stringKeywords = []string{"query", "mutation", "subscription", "fragment", "on", "true", "false", "null", "extend", "type", "schema", "scalar",
+	"interface", "union", "enum", "input", "directive", "implements", "repeatable"}
+
+var optionalKeywords = []string{"on", "implements", "repeatable", "extend"}
+
 // RenderComments puts a comment (ended by LF, CRLF or a bare CR in turn) into
 // every gap: whatever the parser does between two tokens, it does it across a comment.
 func RenderComments(toks []RTok, k int) string {
@@ -178,6 +183,69 @@ func (gb *GrammarBind) checkSentence(st *grammarStats, toks []RTok, evs []TreeEv
 	}
 	r := rand.New(rand.NewSource(seed))
 	texts := []string{RenderSpaces(toks), RenderIgnored(toks, r), RenderComments(toks, int(seed))}
+	// the same sentence with every string token spelling a keyword of the grammars: a string is a string
+	// whatever it says (the expected tree carries the keyword as the string's value). Variants: a keyword
+	// picked per position, and each of the keywords that are optional where they occur.
+	hasStr := false
+	for _, t := range toks {
+		if t.Class == "STR" {
+			hasStr = true
+		}
+	}
+	for variant := 0; hasStr && variant < 1+len(optionalKeywords); variant++ {
+		toks2 := append([]RTok{}, toks...)
+		for i := range toks2 {
+			if toks2[i].Class != "STR" {
+				continue
+			}
+			kw := stringKeywords[(int(seed&0xffff)+i*5)%len(stringKeywords)]
+			if variant > 0 {
+				kw = optionalKeywords[variant-1]
+			}
+			if (i+variant)%2 == 0 {
+				toks2[i].Text = `"` + kw + `"`
+			} else {
+				toks2[i].Text = `"""` + kw + `"""`
+			}
+			toks2[i].Value = kw
+		}
+		var exp2 []GT
+		if expectOK {
+			lex := make([]string, len(toks2))
+			for i, t := range toks2 {
+				lex[i] = t.Value
+			}
+			e2, err := BuildTree(evs, lex)
+			if err != nil {
+				continue
+			}
+			exp2 = gb.Norm(e2)
+		}
+		text := RenderSpaces(toks2)
+		tree, ok, crash := gb.Parse(text)
+		switch {
+		case crash != "":
+			st.add(GrammarMismatch{Kind: "crash", Source: source + " (keyword strings)", Tokens: toks2, Text: text, Observed: crash})
+		case expectOK && !ok:
+			st.add(GrammarMismatch{Kind: "accept", Source: source + " (keyword strings)", Tokens: toks2, Text: text, Expected: "derivable: must parse", Observed: "rejected"})
+		case !expectOK && ok:
+			st.add(GrammarMismatch{Kind: "reject", Source: source + " (keyword strings)", Tokens: toks2, Text: text, Expected: "not derivable: must fail", Observed: "parsed"})
+		case expectOK:
+			if got := gb.Norm(tree); !gtListEqual(exp2, got) {
+				st.add(GrammarMismatch{Kind: "tree", Source: source + " (keyword strings)", Tokens: toks2, Text: text, Expected: gtListString(exp2), Observed: gtListString(got)})
+			}
+		}
+	}
+	// a control character inside a comment is not a source character: the text is no document at all
+	if len(toks) >= 2 && seed%4 == 0 {
+		k := 1 + int(seed&0xff)%(len(toks)-1)
+		text := RenderSpaces(toks[:k]) + " # bell\x07 in a comment\n" + RenderSpaces(toks[k:])
+		if _, ok, crash := gb.Parse(text); crash != "" {
+			st.add(GrammarMismatch{Kind: "crash", Source: source + " (control character in a comment)", Tokens: toks, Text: text, Observed: crash})
+		} else if ok {
+			st.add(GrammarMismatch{Kind: "reject", Source: source + " (control character in a comment)", Tokens: toks, Text: text, Expected: "a control character is not a source character: must fail", Observed: "parsed"})
+		}
+	}
 	for _, text := range texts {
 		tree, ok, crash := gb.Parse(text)
 		switch {
@@ -435,7 +503,7 @@ func (gb *GrammarBind) TransitionCover(c *core.Ctx, g *tlc.Graph) *grammarStats 
 		for ei, e := range g.Nodes[u].Out {
 			if cls, ok := tokAction(e.Action); ok {
 				enabled[cls] = true
-				if toAcc[e.To] >= 0 && len(outs) < 2 {
+				if toAcc[e.To] >= 0 && len(outs) < 4 {
 					outs = append(outs, ei)
 				}
 			}
